@@ -295,6 +295,25 @@ func observe(w *world, emit func(gate.Event), files map[int][]byte) {
 	emit(w.r.Do(drv.Op{Op: "enum", After: 0, Limit: len(all) + 2}))
 	emit(w.r.Do(drv.Op{Op: "enum", After: 5, Limit: 3}))
 	emit(w.r.Do(drv.Op{Op: "enum", After: 2 * len(all) / 2, Limit: 2}))
+	// page through everything with small limits, every cursor being the exact ref of the last blob of the page
+	// before (packed or loose): the packed and the loose enumeration are merged per page
+	for _, lim := range []int{1, 2, 3} {
+		cur := 0
+		for step := 0; step <= len(all)+1; step++ {
+			ev := w.r.Do(drv.Op{Op: "enum", After: cur, Limit: lim})
+			emit(ev)
+			lst, _ := ev["list"].([]any)
+			if ev["res"] != "ok" || len(lst) == 0 {
+				break
+			}
+			last, _ := lst[len(lst)-1].([]any)
+			nx, _ := last[0].(int)
+			if nx <= cur {
+				break
+			}
+			cur = nx
+		}
+	}
 	emit(w.r.Do(drv.Op{Op: "subfetch", B: w.r.U.Blobs[0].Rank, Off: 2, Len: 2}))
 	emit(w.r.Do(drv.Op{Op: "subfetch", B: w.r.U.Blobs[len(all)/2].Rank, Off: 1, Len: 4}))
 	var fr []int
